@@ -126,7 +126,10 @@ class BroadcastTo(ArrayExpr):
             input_axis,
             shuffle_expr.operand("name"),
         )
-        return BroadcastTo(shuffled_input, self._shape, self._chunks, self._meta)
+        # a take-style indexer changes the extent and chunking of the shuffled axis
+        shape = tuple(shuffled_input.shape[input_axis] if i == axis else s for i, s in enumerate(self._shape))
+        chunks = tuple(shuffled_input.chunks[input_axis] if i == axis else c for i, c in enumerate(self.chunks))
+        return BroadcastTo(shuffled_input, shape, chunks, self._meta)
 
     def _accept_slice(self, slice_expr):
         """Accept a slice being pushed through BroadcastTo.
